@@ -318,3 +318,237 @@ Proof.
   - subst x. vm_compute. reflexivity.
   - apply sin_odd_l; [apply flocq_prims_wf | exact Hc | exact Hx].
 Qed.
+
+Lemma cos_even_flocq_zero : s_cos flocq_prims (s_neg 0) = s_cos flocq_prims 0.
+Proof. reflexivity. Qed.
+
+(* ------------------------------------------------------------------ Part D: Q32.32 *)
+Open Scope Z_scope.
+
+Ltac unfold_fx := unfold in_i64, sat64, I64_MIN, I64_MAX, I128_MAX in *.
+Ltac zbools :=
+  repeat match goal with
+  | |- context [?a =? ?b] => destruct (Z.eqb_spec a b)
+  | |- context [?a <=? ?b] => destruct (Z.leb_spec a b)
+  | |- context [?a <? ?b] => destruct (Z.ltb_spec a b)
+  end.
+
+Lemma sat64_range : forall v, in_i64 (sat64 v).
+Proof. intro v. unfold_fx. zbools; lia. Qed.
+
+Lemma sat64_clamp : forall v, sat64 v = Z.max I64_MIN (Z.min I64_MAX v).
+Proof. intro v. unfold_fx. zbools; lia. Qed.
+
+Lemma sat64_id : forall v, in_i64 v -> sat64 v = v.
+Proof. intros v H. unfold_fx. zbools; lia. Qed.
+
+(* conversions are total and land in i64 for every bit pattern *)
+Lemma q32_total_l : forall b : N,
+  in_i64 (fx_from_f32 b) /\ in_i64 (codec_fx_from_f32 b) /\ in_i64 (dfix_from_f32 b).
+Proof.
+  intro b. unfold dfix_from_f32.
+  assert (H : in_i64 (fx_from_f32 b)).
+  { unfold fx_from_f32.
+    destruct (is_nan b); [unfold_fx; lia|].
+    destruct (is_inf b); [destruct (sign_of b); unfold_fx; lia|].
+    destruct (_ && _); [unfold_fx; lia|]. apply sat64_range. }
+  split; [exact H|split; [|exact H]].
+  unfold codec_fx_from_f32.
+  destruct (is_nan b); [unfold_fx; lia|].
+  destruct (is_inf b); [destruct (sign_of b); unfold_fx; lia|].
+  apply sat64_range.
+Qed.
+
+(* add / sub / neg are the exact integer result clamped into i64: saturation, never wrap-around *)
+Lemma q32_saturates_l : forall a b, in_i64 a -> in_i64 b ->
+  dfix_add a b = Z.max I64_MIN (Z.min I64_MAX (a + b)) /\
+  dfix_sub a b = Z.max I64_MIN (Z.min I64_MAX (a - b)) /\
+  dfix_neg a = Z.max I64_MIN (Z.min I64_MAX (- a)) /\
+  in_i64 (dfix_mul a b) /\ in_i64 (dfix_div a b).
+Proof.
+  intros a b Ha Hb. unfold dfix_add, dfix_sub.
+  rewrite <- !sat64_clamp. repeat split; try reflexivity.
+  - unfold dfix_neg. unfold_fx. zbools; lia.
+  - unfold dfix_mul. apply sat64_range.
+  - unfold dfix_mul. apply sat64_range.
+  - unfold dfix_div. destruct (b =? 0); [|apply sat64_range].
+    destruct (a =? 0); [unfold_fx; lia|]. destruct (a <? 0); unfold_fx; lia.
+  - unfold dfix_div. destruct (b =? 0); [|apply sat64_range].
+    destruct (a =? 0); [unfold_fx; lia|]. destruct (a <? 0); unfold_fx; lia.
+Qed.
+
+(* multiplication rounds to nearest: unless it saturates, the result is within half a unit (2^31 of
+   the 2^64-scaled exact product) of a*b *)
+Lemma dfix_mul_nearest_l : forall a b, in_i64 a -> in_i64 b ->
+  I64_MIN < dfix_mul a b < I64_MAX -> Z.abs (dfix_mul a b * 2 ^ 32 - a * b) <= 2 ^ 31.
+Proof.
+  intros a b Ha Hb. unfold dfix_mul.
+  assert (Hp : Z.abs (a * b) <= 2 ^ 126).
+  { rewrite Z.abs_mul. change (2 ^ 126) with (2 ^ 63 * 2 ^ 63).
+    apply Z.mul_le_mono_nonneg; unfold_fx; lia. }
+  remember (a * b) as prod eqn:Eprod. clear Eprod Ha Hb a b.
+  set (q := Z.abs prod / 2 ^ 32). set (rr := Z.abs prod mod 2 ^ 32).
+  assert (Hdm : Z.abs prod = 2 ^ 32 * q + rr /\ 0 <= rr < 2 ^ 32).
+  { split; [apply Z.div_mod; lia | apply Z.mod_pos_bound; lia]. }
+  assert (Hq : 0 <= q <= 2 ^ 94).
+  { split; [apply Z.div_pos; lia|]. apply Z.div_le_upper_bound; [lia|].
+    change (2 ^ 32 * 2 ^ 94) with (2 ^ 126). exact Hp. }
+  clearbody q rr.
+  change (2 ^ 32) with 4294967296 in *. change (2 ^ 31) with 2147483648 in *.
+  change (2 ^ 94) with 19807040628566084398385987584 in *.
+  set (rounded := if (2147483648 <? rr) || ((rr =? 2147483648) && Z.odd q) then q + 1 else q).
+  assert (Hr : (rounded = q /\ rr <= 2147483648) \/ (rounded = q + 1 /\ 2147483648 <= rr)).
+  { unfold rounded. destruct (Z.ltb_spec 2147483648 rr); cbn [orb]; [right; lia|].
+    destruct (Z.eqb_spec rr 2147483648); cbn [andb]; [|left; lia].
+    destruct (Z.odd q); [right; lia | left; lia]. }
+  clearbody rounded.
+  assert (Hmin : Z.min rounded I128_MAX = rounded) by (unfold I128_MAX; lia).
+  rewrite Hmin. unfold_fx.
+  destruct (Z.ltb_spec prod 0); zbools; intros; lia.
+Qed.
+
+(* division rounds to nearest: unless it saturates, |r * b - a * 2^32| <= |b| / 2 *)
+Lemma dfix_div_nearest_l : forall a b, in_i64 a -> in_i64 b -> b <> 0 ->
+  I64_MIN < dfix_div a b < I64_MAX -> 2 * Z.abs (dfix_div a b * b - a * 2 ^ 32) <= Z.abs b.
+Proof.
+  intros a b Ha Hb Hb0. unfold dfix_div.
+  destruct (Z.eqb_spec b 0) as [E|_]; [contradiction|].
+  set (num := Z.abs (a * 2 ^ 32)). set (den := Z.abs b).
+  assert (Hden : 0 < den) by (unfold den; lia).
+  set (q := num / den). set (rr := num mod den).
+  assert (Hdm : num = den * q + rr /\ 0 <= rr < den).
+  { split; [apply Z.div_mod; lia | apply Z.mod_pos_bound; lia]. }
+  assert (Hnum : 0 <= num <= 2 ^ 95).
+  { unfold num. change (2 ^ 32) with 4294967296. change (2 ^ 95) with (9223372036854775808 * 4294967296).
+    unfold_fx. lia. }
+  assert (Hq : 0 <= q <= 2 ^ 95).
+  { split; [apply Z.div_pos; lia|]. apply Z.div_le_upper_bound; [lia|]. nia. }
+  unfold round_half_even_div. fold q rr.
+  set (rounded := if (den <? 2 * rr) || ((2 * rr =? den) && Z.odd q) then q + 1 else q).
+  assert (Hr : (rounded = q /\ 2 * rr <= den) \/ (rounded = q + 1 /\ den <= 2 * rr)).
+  { unfold rounded. destruct (Z.ltb_spec den (2 * rr)); cbn [orb]; [right; lia|].
+    destruct (Z.eqb_spec (2 * rr) den); cbn [andb]; [|left; lia].
+    destruct (Z.odd q); [right; lia | left; lia]. }
+  clearbody rounded.
+  assert (Hmin : Z.min rounded I128_MAX = rounded).
+  { unfold I128_MAX. change (2 ^ 95) with 39614081257132168796771975168 in Hq. lia. }
+  rewrite Hmin.
+  assert (Hnum' : num = Z.abs a * 4294967296) by (unfold num; change (2 ^ 32) with 4294967296; lia).
+  change (2 ^ 32) with 4294967296.
+  clearbody q rr. clear Hmin Hq Hnum.
+  unfold_fx.
+  destruct (Z.ltb_spec a 0); destruct (Z.ltb_spec b 0); cbn [xorb];
+    zbools; intros; unfold den in *; nia.
+Qed.
+
+Close Scope Z_scope.
+
+(* ------------------------------------------------------------------ Part E: PRNG *)
+
+Lemma prng_next_u64_range : forall st, fst (prng_next_u64 st) < M64.
+Proof. intros [s0 s1]. unfold prng_next_u64. cbn [fst]. apply N.mod_lt. discriminate. Qed.
+
+Lemma prng_reject_range : forall fuel st bound span v st',
+  span <> 0 -> prng_reject fuel st bound span = Some (v, st') -> v < span.
+Proof.
+  induction fuel as [|f IH]; intros st bound span v st' Hs H; [discriminate|].
+  cbn [prng_reject] in H. destruct (prng_next_u64 st) as [cand st1].
+  destruct (cand <? bound).
+  - inversion H; subst. apply N.mod_lt. exact Hs.
+  - eapply IH; eauto.
+Qed.
+
+Lemma Pos_land_le : forall p q, Pos.land p q <= N.pos q.
+Proof.
+  induction p as [p IH|p IH|]; destruct q as [q|q|]; cbn; try lia;
+    try (specialize (IH q); destruct (Pos.land p q); cbn; lia).
+Qed.
+
+Lemma land_le_r : forall a b, N.land a b <= b.
+Proof. intros [|p] [|q]; cbn; try lia. apply Pos_land_le. Qed.
+
+(* next_int stays inside [min, max] (both the power-of-two fast path and rejection sampling) and
+   panics (None) exactly when min > max or the fuel of the model runs out *)
+Lemma prng_next_int_in_range : forall fuel st lo hi v st',
+  (- 2 ^ 31 <= lo)%Z -> (hi < 2 ^ 31)%Z ->
+  prng_next_int fuel st lo hi = Some (v, st') -> (lo <= v <= hi)%Z.
+Proof.
+  intros fuel st lo hi v st' Hlo Hhi H. unfold prng_next_int in H.
+  destruct (Z.ltb_spec hi lo) as [Hlt|Hle]; [discriminate|].
+  set (span := Z.to_N (hi - lo)%Z + 1) in *.
+  assert (Hspan : span <> 0) by (unfold span; lia).
+  destruct (N.eqb_spec span 1) as [E1|N1].
+  - inversion H; subst. unfold span in E1. lia.
+  - assert (Hv : forall w s, (if is_pow2 span
+                     then let '(v0, st'0) := prng_next_u64 st in Some (N.land v0 (span - 1), st'0)
+                     else prng_reject fuel st (M64 - 1 - (M64 - 1) mod span) span) = Some (w, s) -> w < span).
+    { intros w s Hw. destruct (is_pow2 span).
+      - destruct (prng_next_u64 st) as [v0 s0]. inversion Hw; subst.
+        pose proof (land_le_r v0 (span - 1)). lia.
+      - eapply prng_reject_range; eauto. }
+    destruct (if is_pow2 span then _ else _) as [[w s]|] eqn:Er; [|discriminate].
+    specialize (Hv w s eq_refl). inversion H; subst. clear H Er.
+    assert (Hoff : (lo <= Z.of_N w + lo <= hi)%Z) by (unfold span in Hv; lia).
+    set (off := (Z.of_N w + lo)%Z) in *.
+    assert (Hm : ((off mod 2 ^ 32 = off /\ 0 <= off) \/ (off mod 2 ^ 32 = off + 2 ^ 32 /\ off < 0))%Z).
+    { change (2 ^ 32)%Z with 4294967296%Z. change (2 ^ 31)%Z with 2147483648%Z in *.
+      destruct (Z.ltb_spec off 0); [right|left]; split; lia. }
+    change (Z.pow_pos 2 32) with 4294967296%Z. change (Z.pow_pos 2 31) with 2147483648%Z.
+    change (2 ^ 32)%Z with 4294967296%Z in *. change (2 ^ 31)%Z with 2147483648%Z in *.
+    destruct Hm as [[Hm Hs]|[Hm Hs]]; rewrite Hm; destruct (Z.ltb_spec off 2147483648);
+      destruct (Z.ltb_spec (off + 4294967296) 2147483648); lia.
+Qed.
+
+(* seeding never produces the all-zero state, and a step never maps a non-zero state to zero *)
+Lemma prng_from_seed_nonzero : forall s0 s1, prng_from_seed s0 s1 <> (0, 0).
+Proof.
+  intros s0 s1. unfold prng_from_seed.
+  destruct (N.eqb_spec s0 0); destruct (N.eqb_spec s1 0); cbn [andb]; try discriminate; congruence.
+Qed.
+
+Lemma prng_from_seed_u64_nonzero : forall seed, prng_from_seed_u64 seed <> (0, 0).
+Proof.
+  intro seed. unfold prng_from_seed_u64.
+  destruct (splitmix64 seed) as [st1 a]. destruct (splitmix64 st1) as [st2 b].
+  destruct (N.eqb_spec a 0); destruct (N.eqb_spec b 0); cbn [andb]; try discriminate; congruence.
+Qed.
+
+Lemma rotl64_zero : forall x k, x < M64 -> k < 64 -> rotl64 x k = 0 -> x = 0.
+Proof.
+  intros x k Hx Hk H. unfold rotl64 in H. apply N.lor_eq_0_iff in H. destruct H as [H1 H2].
+  apply N.bits_inj_0. intro n.
+  destruct (N.lt_ge_cases n (64 - k)) as [Hn|Hn].
+  - (* bit n moves to position n + k < 64 of the left part *)
+    assert (Hb : N.testbit (N.shiftl x k mod M64) (n + k) = N.testbit x n).
+    { change M64 with (2 ^ 64). rewrite N.mod_pow2_bits_low by lia.
+      rewrite N.shiftl_spec_high' by lia. f_equal. lia. }
+    rewrite <- Hb, H1. apply N.bits_0.
+  - (* bit n >= 64 - k moves to position n - (64 - k) of the right part *)
+    assert (Hb : N.testbit (N.shiftr x (64 - k)) (n - (64 - k)) = N.testbit x n).
+    { rewrite N.shiftr_spec'. f_equal. lia. }
+    rewrite <- Hb, H2. apply N.bits_0.
+Qed.
+
+Lemma lxor_range64 : forall a b, a < M64 -> b < M64 -> N.lxor a b < M64.
+Proof.
+  intros a b Ha Hb. change M64 with (2 ^ 64) in *.
+  destruct (N.eq_dec (N.lxor a b) 0) as [E|E]; [rewrite E; reflexivity|].
+  apply N.log2_lt_pow2; [lia|].
+  eapply N.le_lt_trans; [apply N.log2_lxor|].
+  apply N.max_lub_lt.
+  - destruct (N.eq_dec a 0) as [->|Na]; [reflexivity|]. apply N.log2_lt_pow2; lia.
+  - destruct (N.eq_dec b 0) as [->|Nb]; [reflexivity|]. apply N.log2_lt_pow2; lia.
+Qed.
+
+Lemma prng_step_nonzero : forall s0 s1, s0 < M64 -> s1 < M64 ->
+  (s0, s1) <> (0, 0) -> snd (prng_next_u64 (s0, s1)) <> (0, 0).
+Proof.
+  intros s0 s1 H0 H1 Hnz. unfold prng_next_u64. cbn [snd]. intro E.
+  injection E as E0 E1.
+  assert (Hx : N.lxor s1 s0 < M64) by (apply lxor_range64; assumption).
+  apply rotl64_zero in E1; [|exact Hx|reflexivity].
+  rewrite E1 in E0. rewrite N.shiftl_0_l, N.lxor_0_r in E0.
+  change (0 mod M64) with 0 in E0. rewrite N.lxor_0_r in E0.
+  apply rotl64_zero in E0; [|exact H0|reflexivity].
+  apply N.lxor_eq in E1. subst. apply Hnz. reflexivity.
+Qed.
